@@ -27,7 +27,7 @@ RULE = (
     "canonical scenario hash."
 )
 ASSUMPTIONS = ["one history (no nested histories), default ignore patterns, file contents pairwise distinct", "one rename step per file between two generations"]
-BUDGET = {"quick": (200, 4), "thorough": (6000, 16)}
+BUDGET = {"quick": (200, 4), "thorough": (36000, 16)}
 REQUIRED = ["multi_rename", "cross_dir_move", "unrelated_new", "second_round", "renamed_back", "other_format", "-n", "new_directory", "altered_after"]
 
 
